@@ -348,7 +348,7 @@ def b_native(B):
                         for st in (1, 2, 7):
                             if not np.array_equal(a[s0:s1:st, :], c[s0:s1:st, :]):
                                 bad.append((s0, s1, st))
-                for n in (0, 1, chunk - 1, chunk, ns - 1, -1, -ns):
+                for n in sorted({n_ for n_ in (0, 1, chunk - 1, chunk, ns - 1, -1, -ns) if -ns <= n_ < ns}):       # valid integer indices only
                     if not np.array_equal(a[n, :], c[n, :]) or not np.array_equal(a[n, 5], c[n, 5]):
                         bad.append(("int", n))
                 for cs in (slice(None), slice(3, 40, 5), [0, 7, 384], slice(None, None, -1)):
